@@ -409,14 +409,14 @@ def _ev_oracle(c, r, so, guard):
 
 
 FNS = {
-    "read_bitpacked": dict(model=_rb_model, views=_dec_views, spec=_rb_spec, oracle=_rb_oracle, safe=_rb_safe,
+    "read_bitpacked": dict(hw=lambda c: ("c_read_bitpacked_hw",) + _rb_model(c)[1:], model=_rb_model, views=_dec_views, spec=_rb_spec, oracle=_rb_oracle, safe=_rb_safe,
                            cls=lambda c: {"width": c["w"], "isz": c["isz"], "empty_run": c["meta"]["empty_run"]},
                            trivial=lambda c: c["header"] >> 1 == 0 or c["cap"] < c["isz"]),
     "read_rle": dict(model=lambda c: ("c_read_rle", _inp(c), c["header"], c["w"], c["cap"], c["isz"]), views=_dec_views,
                      spec=_rle_spec, oracle=_rle_oracle, safe=lambda c: True,
                      cls=lambda c: {"width": c["w"], "isz": c["isz"]},
                      trivial=lambda c: c["header"] >> 1 == 0 or c["cap"] < c["isz"]),
-    "read_hybrid": dict(model=_hy_model, views=_dec_views, spec=_hy_spec, oracle=_hy_oracle, safe=_hy_safe,
+    "read_hybrid": dict(hw=lambda c: ("c_read_hybrid_hw",) + _hy_model(c)[1:], model=_hy_model, views=_dec_views, spec=_hy_spec, oracle=_hy_oracle, safe=_hy_safe,
                         cls=lambda c: {"width": c["w"], "isz": c["isz"], "has_bp": c["meta"]["has_bp"],
                                        "empty_run": c["meta"]["empty_run"]},
                         trivial=lambda c: c["cap"] < c["isz"]),
@@ -461,7 +461,16 @@ def check_cases(ctx, pid, cases, workdir, sanitize, memory_only=False):
             return FNS[c["fn"]].get("tagged", True) and L.tag(mo) not in ("ok", None)
         ia = [i for i, (c, mo) in enumerate(zip(cases, mouts)) if not unsafe(c, mo)]
         ib = [i for i, (c, mo) in enumerate(zip(cases, mouts)) if unsafe(c, mo)]
-        real = [None] * len(cases)
+        # an ASan report is fatal (one worker restart each): of the cases whose model verdict is OOB only a fixed-size,
+        # evenly spread subset is executed; UB verdicts (UBSan does not halt) all run
+        oob = [i for i in ib if L.tag(mouts[i]) == "oob"]
+        keep = 120 if ctx.quick() else 300
+        if len(oob) > keep:
+            step = len(oob) / float(keep)
+            chosen = {oob[int(k * step)] for k in range(keep)}
+            ib = [i for i in ib if L.tag(mouts[i]) != "oob" or i in chosen]
+            ctx.count("model verdict OOB, not executed under ASan (budget)", len(oob) - len(chosen))
+        real = [["skipped"]] * len(cases)
         for part, tagname in ((ia, "safe"), (ib, "unsafe")):
             rs = L.run_real([worker_case(cases[i]) for i in part], os.path.join(workdir, tagname), sanitize=True, nproc=nproc,
                             max_crashes=15 if tagname == "safe" else 400)
@@ -471,8 +480,12 @@ def check_cases(ctx, pid, cases, workdir, sanitize, memory_only=False):
         real = L.run_real([worker_case(c) for c in cases], workdir, sanitize=False, nproc=nproc, max_crashes=150)
     souts = L.pq_batch([FNS[c["fn"]]["spec"](c) for c in cases], nproc=4)
     souts = second_phase(cases, real, souts)
-    for c, r, mo, so in zip(cases, real, mouts, souts):
-        judge(ctx, pid, c, r, mo, so, guard, sanitize, memory_only=memory_only)
+    # where the standard model answers UB, the x86 reading of the undefined shifts is compared with the binary as well
+    ih = [i for i, (c, mo) in enumerate(zip(cases, mouts)) if "hw" in FNS[c["fn"]] and FNS[c["fn"]].get("tagged", True)
+          and L.tag(mo) in ("ub", "ok")]
+    hws = dict(zip(ih, L.pq_batch([FNS[cases[i]["fn"]]["hw"](cases[i]) for i in ih], nproc=4)))
+    for i, (c, r, mo, so) in enumerate(zip(cases, real, mouts, souts)):
+        judge(ctx, pid, c, r, mo, so, guard, sanitize, memory_only=memory_only, hwo=hws.get(i))
 
 
 def second_phase(cases, real, souts):
@@ -495,7 +508,7 @@ def second_phase(cases, real, souts):
     return souts
 
 
-def judge(ctx, pid, c, r, mo, so, guard, sanitize, verbose=False, memory_only=False):
+def judge(ctx, pid, c, r, mo, so, guard, sanitize, verbose=False, memory_only=False, hwo=None):
     """returns True when the property fails on this case"""
     f = FNS[c["fn"]]
     fn = c["fn"]
@@ -527,6 +540,19 @@ def judge(ctx, pid, c, r, mo, so, guard, sanitize, verbose=False, memory_only=Fa
     if model_ok and not crashed:
         mv, iv = f["views"](c, mo, r, guard)
         ctx.correspondence("%s ~ impl model (output buffer incl. guard, cursors)" % fn, short(c), mv, iv)
+    if hwo is not None and mtag == "ok":
+        # the hw variant must coincide with the standard model wherever that one is defined
+        ctx.correspondence("hw model = standard impl model where the standard model is Ok (%s)" % fn, short(c), mo, hwo)
+    elif hwo is not None and r[0] != "missing":
+        name = "beyond the boundary: %s ~ x86 reading of the undefined shifts (hw model)" % fn
+        ht = L.tag(hwo)
+        rr = r[3] if (r[0] == "ubsan" and len(r) > 3) else r
+        if ht == "ok" and rr[0] == "ok":
+            mv, iv = f["views"](c, hwo, rr, guard)
+            ctx.correspondence(name, short(c), mv, iv)
+        else:
+            ctx.correspondence(name, short(c), "leaves the buffers" if ht == "oob" else ht,
+                               "leaves the buffers" if r[0] in ("crash", "asan") else r[0])
     if not model_ok:
         # outside the region where the compiled code has a defined meaning: must be a listed finding
         ctx.count("model verdict unsafe: what the real run showed", r[0] if crashed else "no report")
@@ -939,7 +965,7 @@ def _info_views(model_name):
 
 
 FNS.update({
-    "delta_unpack": dict(model=_du_model, views=_du_views, spec=lambda c: ("delta_dec", 64 if c["longval"] else 32, _inp(c)),
+    "delta_unpack": dict(hw=lambda c: ("c_delta_unpack_hw",) + _du_model(c)[1:], model=_du_model, views=_du_views, spec=lambda c: ("delta_dec", 64 if c["longval"] else 32, _inp(c)),
                          oracle=_du_oracle, safe=_du_safe, cls=_du_cls, trivial=lambda c: c["meta"]["count"] == 0 or c["cap"] == 0),
     "enc_bitpacked": dict(model=lambda c: ("c_encode_bitpacked", c["vals"], c["w"], c["cap"]), views=_eb_views, spec=_eb_spec,
                           oracle=_eb_oracle, spec2=_eb_spec2, safe=lambda c: c["w"] <= 24, cls=lambda c: {"width": c["w"]},
@@ -977,3 +1003,52 @@ FNS.update({
                         info=lambda c, mo, r: r[0] == "ok" and bytes(mo).hex() == r[1]),
 })
 EXTRA_GENERATORS += [gen_delta, gen_encoders, gen_plain]
+
+
+# =============================================================================================
+# extraction vs kernel: a sample of the impl-model commands is re-evaluated by vm_compute inside coqc
+# (DESIGN 3.2) - the extracted OCaml code and the Coq definitions the theorems are about must agree
+# =============================================================================================
+
+_COQ_REQ = ("From Coq Require Import NArith ZArith List.\n"
+            "From Pq Require Import Base.Bytes Base.Err Base.ListX Impl.CVarint Impl.CBitpack Impl.CRle Impl.CHybrid Impl.CDelta.\n"
+            "Import ListNotations.\nOpen Scope N_scope.\n"
+            "Definition vw (r : res dres) : N * list N * N * N := match r with Ok d => (0, d_vals d, d_used d, d_written d) "
+            "| OOB => (1, [], 0, 0) | UB => (2, [], 0, 0) | Fuel => (3, [], 0, 0) end.\n"
+            "Definition vw3 (r : res (list N * N * N)) : N * list N * N * N := match r with Ok (a, b, c) => (0, a, b, c) "
+            "| OOB => (1, [], 0, 0) | UB => (2, [], 0, 0) | Fuel => (3, [], 0, 0) end.\n")
+
+
+def _cl(b):
+    return "[" + "; ".join(str(x) for x in b) + "]"
+
+
+_COQ_EXPR = {
+    "read_bitpacked": lambda c: "vw (c_read_bitpacked %s (%d)%%Z %d %d %d)" % (_cl(_inp(c)), c["header"], c["w"], c["cap"], c["isz"]),
+    "read_rle": lambda c: "vw (c_read_rle %s (%d)%%Z %d %d %d)" % (_cl(_inp(c)), c["header"], c["w"], c["cap"], c["isz"]),
+    "read_hybrid": lambda c: "vw (c_read_hybrid %s %d %d %d %d)" % (_cl(_inp(c)), c["w"], c["length"], c["cap"], c["isz"]),
+    "read_bitpacked1": lambda c: "vw (c_read_bitpacked1 %s %d %d)" % (_cl(_inp(c)), c["count"], c["cap"]),
+    "delta_unpack": lambda c: "vw3 (c_delta_binary_unpack %s (repN %d %d []) %d %s)" % (
+        _cl(_inp(c)), FILL64 if c["longval"] else FILL32, c["cap"] // (8 if c["longval"] else 4), c["cap"],
+        "true" if c["longval"] else "false"),
+}
+
+
+def extraction_agreement(ctx, cases, workdir, n=24):
+    pool = [i for i, c in enumerate(cases) if c["fn"] in _COQ_EXPR and len(c["inp"]) <= 600]
+    by_fn = {}
+    for i in pool:
+        by_fn.setdefault(cases[i]["fn"], []).append(i)
+    pick = []
+    for fn in sorted(by_fn):
+        pick += ctx.rng.sample(by_fn[fn], min(max(n // len(by_fn), 1), len(by_fn[fn])))
+    exprs = [_COQ_EXPR[cases[i]["fn"]](cases[i]) for i in pick]
+    kernel = C.vm_eval(_COQ_REQ, exprs, "N * list N * N * N", workdir, tag="extract_agrees")
+    extracted = L.pq_batch([FNS[cases[i]["fn"]]["model"](cases[i]) for i in pick])
+    codes = {"ok": 0, "oob": 1, "ub": 2, "fuel": 3}
+    for i, k, mo in zip(pick, kernel, extracted):
+        kv = C.parse_coq(k) if k is not None else None
+        kv = [kv[0], list(kv[1]), kv[2], kv[3]] if kv is not None else None
+        t = L.tag(mo)
+        ev = [0, list(mo[1]), mo[2], mo[3]] if t == "ok" else [codes.get(t, 9), [], 0, 0]
+        ctx.correspondence("extracted impl model (pqref) = kernel evaluation of the same Coq term (vm_compute)", short(cases[i]), kv, ev)
